@@ -39,7 +39,7 @@ func (P) Engine() string { return "E1" }
 
 func (P) Describe() harness.Description {
 	return harness.Description{
-		MustHit: []string{"element_replaced_in_loaded_slice_and_reloaded", "invalid_rule_in_load", "nil_rule_in_load", "identical_reload", "probe_blocked_by_enforced_rule", "per_resource_load"},
+		MustHit: []string{"outlier_valid_and_invalid_rule_for_one_resource", "element_replaced_in_loaded_slice_and_reloaded", "invalid_rule_in_load", "nil_rule_in_load", "identical_reload", "probe_blocked_by_enforced_rule", "per_resource_load"},
 		Level:   "exploration",
 		Rule: "case = (table of 6-24 rule specifications over the six modules: valid never-blocking, valid always-blocking, invalid in exactly one field-wise way (built so that they would block a probe if enforced), nil elements; 5-30 operations: LoadRules, LoadRulesOfResource, ClearRules, ClearRulesOfResource, identical reload with freshly allocated objects, probe). " +
 			"After every call: no panic escaped; the getters equal the rule-set model (per resource, in order); the enforcement accessors (traffic controllers / breakers / enforced outlier rule) carry exactly the model's rules; probe traffic on every resource is blocked by exactly the first module that holds an enforced blocking rule and otherwise passes; an identical reload reports 'unchanged'. " +
@@ -457,6 +457,14 @@ func (P) Exec(c *harness.Case) *harness.Outcome {
 				// the outlier module holds one rule per resource: a list with several rules for one
 				// resource is contradictory input (outside the domain); its per-resource call takes a
 				// single rule and treats nil as "clear"
+				// (two VALID rules for one resource are contradictory; a valid one together with invalid ones is not:
+				// the invalid ones are to be ignored, wherever they stand in the list)
+				validPer := map[int]int{}
+				for _, r := range list {
+					if r.Valid() {
+						validPer[r.Res]++
+					}
+				}
 				seen := map[int]bool{}
 				k := 0
 				for i := len(list) - 1; i >= 0; i-- {
@@ -464,7 +472,7 @@ func (P) Exec(c *harness.Case) *harness.Outcome {
 					if r.Nil && op.K == "loadres" {
 						continue
 					}
-					if !r.Nil {
+					if !r.Nil && (validPer[r.Res] > 1 || op.K == "loadres") {
 						if seen[r.Res] {
 							continue
 						}
@@ -474,6 +482,11 @@ func (P) Exec(c *harness.Case) *harness.Outcome {
 					k++
 				}
 				list = list[len(list)-k:]
+				for _, n := range validPer {
+					if n == 1 && op.K == "load" {
+						o.Probe("outlier_valid_and_invalid_rule_for_one_resource")
+					}
+				}
 				if op.K == "loadres" && len(list) > 1 {
 					list = list[len(list)-1:]
 				}
